@@ -172,8 +172,96 @@ ref::Pos gen_endgame(Tape& t, Report* rep, std::string* label)
     return gen::gen_fen(t, rep);
 }
 
+// Branch-directed constructor for the bishop-and-pawns-versus-bishop blockade logic: pawns on exactly two adjacent
+// files, the leading pawn alone on its file and on the strong bishop's colour, the weak king on one blockade square and
+// the weak bishop aiming at the other one along a diagonal that may be interrupted by another piece.
+ref::Pos gen_kbpskb_blockade(Tape& t, Report* rep, std::string* label)
+{
+    for (int attempt = 0; attempt < 6; ++attempt)
+    {
+        bool strongWhite = !t.flag();
+        auto R = [&](int rel) { return strongWhite ? rel : 7 - rel; };  // relative rank -> board rank
+        ref::Pos p;
+        int f1 = int(t.choose(8));
+        int f2 = f1 == 0 ? 1 : (f1 == 7 ? 6 : (t.flag() ? f1 + 1 : f1 - 1));
+        int r1 = 2 + int(t.choose(5));  // relative rank of the leading pawn: 2..6
+        int lead = ref::SQ(f1, R(r1));
+        p.b[lead] = strongWhite ? 'P' : 'p';
+        int n2 = 1 + int(t.choose(2));
+        for (int i = 0; i < n2; ++i)
+        {
+            int rr = 1 + int(t.choose(uint32_t(r1 - 1)));  // strictly behind the leading pawn
+            int s = ref::SQ(f2, R(rr));
+            if (p.b[s] == '.') p.b[s] = strongWhite ? 'P' : 'p';
+        }
+        int block1 = ref::SQ(f1, R(r1 + 1)), block2 = ref::SQ(f2, R(r1));
+        if (p.b[block2] != '.') continue;
+        bool kingOn1 = t.flag();
+        int ks = kingOn1 ? block1 : block2, other = kingOn1 ? block2 : block1;
+        p.b[ks] = strongWhite ? 'k' : 'K';
+        // weak bishop on a diagonal through the other blockade square (or on it)
+        int wb = -1;
+        {
+            int cand[32], n = 0;
+            for (int d = 1; d < 8; d += 2)  // the four diagonal directions in ref::DIR_*
+            {
+                int f = ref::FL(other) + ref::DIR_DF[d], r = ref::RK(other) + ref::DIR_DR[d];
+                while (ref::on_board(f, r))
+                {
+                    if (p.b[ref::SQ(f, r)] == '.') cand[n++] = ref::SQ(f, r);
+                    f += ref::DIR_DF[d];
+                    r += ref::DIR_DR[d];
+                }
+            }
+            if (t.chance(1, 8) && p.b[other] == '.') wb = other;
+            else if (n) wb = cand[t.choose(n)];
+        }
+        if (wb < 0) continue;
+        p.b[wb] = strongWhite ? 'b' : 'B';
+        // strong bishop on the colour of the leading pawn's square
+        {
+            int cand[64], n = 0;
+            for (int s = 0; s < 64; ++s)
+                if (p.b[s] == '.' && ((ref::FL(s) + ref::RK(s)) & 1) == ((ref::FL(lead) + ref::RK(lead)) & 1)) cand[n++] = s;
+            if (!n) continue;
+            p.b[cand[t.choose(n)]] = strongWhite ? 'B' : 'b';
+        }
+        // strong king: often on the line between the weak bishop and the blockade square (interposition)
+        {
+            int between[8], nb = 0;
+            int df = ref::FL(other) - ref::FL(wb), dr = ref::RK(other) - ref::RK(wb);
+            if (df != 0 && std::abs(df) == std::abs(dr))
+            {
+                int sf = df > 0 ? 1 : -1, sr = dr > 0 ? 1 : -1;
+                for (int f = ref::FL(wb) + sf, r = ref::RK(wb) + sr; f != ref::FL(other); f += sf, r += sr)
+                    if (p.b[ref::SQ(f, r)] == '.') between[nb++] = ref::SQ(f, r);
+            }
+            int cand[64], n = 0;
+            for (int s = 0; s < 64; ++s)
+                if (p.b[s] == '.' && std::max(std::abs(ref::FL(s) - ref::FL(ks)), std::abs(ref::RK(s) - ref::RK(ks))) > 1) cand[n++] = s;
+            if (!n) continue;
+            int s = cand[t.choose(n)];
+            if (nb && t.chance(1, 2))
+            {
+                int b = between[t.choose(nb)];
+                if (std::max(std::abs(ref::FL(b) - ref::FL(ks)), std::abs(ref::RK(b) - ref::RK(ks))) > 1) s = b;
+            }
+            p.b[s] = strongWhite ? 'K' : 'k';
+        }
+        p.wtm = !t.flag();
+        gen::repair_not_to_move_check(p);
+        if (!ref::domain_violation(p).empty()) continue;
+        if (ref::count(p, 'B') != 1 || ref::count(p, 'b') != 1) continue;
+        if (label) *label = std::string("KBPsKBblockade") + (strongWhite ? "_white_strong" : "_black_strong");
+        if (rep) rep->cls(std::string("eval:kbpskb_blockade_") + (strongWhite ? "w" : "b"));
+        return p;
+    }
+    return gen_endgame(t, rep, label);
+}
+
 ref::Pos gen_eval_position(Tape& t, Report* rep, std::string* label)
 {
+    if (t.chance(1, 8)) return gen_kbpskb_blockade(t, rep, label);
     switch (t.weighted({4, 3, 1}))
     {
     case 0: return gen_endgame(t, rep, label);
